@@ -142,6 +142,26 @@ class SequenceOfEncoder(encoder.SequenceOfEncoder):
 
 class SetEncoder(encoder.SequenceEncoder):
     @staticmethod
+    def _tagKey(tagSet):
+        """Canonical order of tags (X.690, 8.6): the outermost tag
+        decides, by class first, then by number
+        """
+        if not tagSet:
+            return -1, -1
+
+        outerTag = tagSet[-1]
+
+        return outerTag.tagClass, outerTag.tagId
+
+    @staticmethod
+    def _minTagKey(asn1Spec):
+        if asn1Spec.typeId == univ.Choice.typeId and not asn1Spec.tagSet:
+            return min([SetEncoder._minTagKey(namedType.asn1Object)
+                        for namedType in asn1Spec.componentType.namedTypes])
+
+        return SetEncoder._tagKey(asn1Spec.tagSet)
+
+    @staticmethod
     def _componentSortKey(componentAndType):
         """Sort SET components by tag
 
@@ -152,13 +172,8 @@ class SetEncoder(encoder.SequenceEncoder):
         if asn1Spec is None:
             asn1Spec = component
 
-        if asn1Spec.typeId == univ.Choice.typeId and not asn1Spec.tagSet:
-            if asn1Spec.tagSet:
-                return asn1Spec.tagSet
-            else:
-                return asn1Spec.componentType.minTagSet
-        else:
-            return asn1Spec.tagSet
+        # an untagged CHOICE goes by the smallest tag of its alternatives
+        return SetEncoder._minTagKey(asn1Spec)
 
     def encodeValue(self, value, asn1Spec, encodeFun, **options):
 
